@@ -18,28 +18,44 @@ variable {σ α : Type}
     subtraction, low side left negative for NumPy) resolves to positions `start - r + k` modulo `n`. -/
 theorem axisIdx_resolve (n start len r k : Nat) (hr : r ≤ n) (hb : start + len ≤ n) (hk : k < len + 2 * r) :
     ((axisIdx n start len r)[k]?).map (resolve n) = some ((start + k + n - r) % n) := by
-  sorry
+  exact axisIdx_getElem?_resolve n start len r k hr hb hk
 
 theorem axisIdx_length (n start len r : Nat) : (axisIdx n start len r).length = len + 2 * r := by
-  sorry
+  exact axisIdx_length' n start len r
 
 /-- **The von Neumann mask** masks exactly the positions at Manhattan distance greater than `r`
     from the centre — for every radius, including `r = 0` (nothing masked). -/
 theorem vonNeumannMask_spec (r i j : Nat) (hi : i < 2 * r + 1) (hj : j < 2 * r + 1) :
     ((vonNeumannMask r)[i]?.bind (·[j]?)) = some (decide (dist i r + dist j r > r)) := by
-  sorry
+  rw [vonNeumannMask_eq, List.getElem?_map, List.getElem?_range hi]
+  simp only [Option.map_some, Option.bind_some]
+  rw [List.getElem?_map, List.getElem?_range hj]
+  rfl
 
 /-- **The neighbourhood handed to the rule is the torus block** centred on the cell (masked for von Neumann). -/
 theorem getNeighbourhood_spec [Inhabited α] (g : Grid α) (R C r : Nat) (vn : Bool) (row col : Nat)
     (hg : Rect g R C) (hR : r ≤ R) (hC : r ≤ C) (hrow : row < R) (hcol : col < C) :
     getNeighbourhood g r vn row col = nbhd g R C r vn row col := by
-  sorry
+  exact getNeighbourhood_eq_nbhd g R C r vn row col hg hR hC hrow hcol
 
 /-- The cell's own state is the centre of its block and is never masked. -/
 theorem nbhd_centre [Inhabited α] (g : Grid α) (R C r : Nat) (vn : Bool) (row col : Nat)
     (hR : r ≤ R) (hC : r ≤ C) (hrow : row < R) (hcol : col < C) :
     ((nbhd g R C r vn row col)[r]?.bind (·[r]?)) = some (some ((g[row]!)[col]!)) := by
-  sorry
+  have _ := hC
+  unfold nbhd
+  rw [List.getElem?_map, List.getElem?_range (by omega)]
+  simp only [Option.map_some, Option.bind_some]
+  rw [List.getElem?_map, List.getElem?_range (by omega)]
+  have h1 : (row + r + R - r) % R = row := by
+    have : row + r + R - r = row + R := by omega
+    rw [this, Nat.add_mod_right, Nat.mod_eq_of_lt hrow]
+  have h2 : (col + r + C - r) % C = col := by
+    have : col + r + C - r = col + C := by omega
+    rw [this, Nat.add_mod_right, Nat.mod_eq_of_lt hcol]
+  have h3 : ¬ ((vn = true) ∧ dist r r + dist r r > r) := by
+    simp [dist]
+  simp only [Option.map_some, h1, h2, h3, if_false]
 
 /-- **One unmemoized step is the synchronous torus update**: cells visited once each in row-major
     order with `(block, (row, col), t)`, for every stateful rule; the result is an `R × C` grid. -/
@@ -48,11 +64,12 @@ theorem step2_plain_eq_spec [DecidableEq α] [Inhabited α] (rule : Rule2 σ α)
     (hR : r ≤ R) (hC : r ≤ C) :
     Cpl.step2 .plain rule r vn g t cs s
       = ((Spec.step2 rule g R C r vn t s).1, cs, (Spec.step2 rule g R C r vn t s).2) := by
-  sorry
+  have _ := hC1
+  exact step2_plain rule g R C r vn t cs s hg hR1 hR hC
 
 theorem step2_rect [Inhabited α] (rule : Rule2 σ α) (g : Grid α) (R C r : Nat) (vn : Bool) (t : Nat) (s : σ) :
     Rect (Spec.step2 rule g R C r vn t s).1 R C := by
-  sorry
+  exact spec_step2_rect rule g R C r vn t s
 
 /-- **`evolve2d` with memoization off equals the specification run** for both known neighbourhood types. -/
 theorem evolve2dFixed_plain_eq_spec [DecidableEq α] [Inhabited α] (hist : List (Grid α)) (init : Grid α)
@@ -62,14 +79,27 @@ theorem evolve2dFixed_plain_eq_spec [DecidableEq α] [Inhabited α] (hist : List
     evolve2dFixed hist T rule r nb .plain s
       = .ok (hist ++ (run2 rule R C r (decide (nb = .vonNeumann)) (T - 1) 1 init s).1,
              (run2 rule R C r (decide (nb = .vonNeumann)) (T - 1) 1 init s).2) := by
-  sorry
+  have _ := hC1
+  unfold evolve2dFixed
+  rw [hlast]
+  have hT0 : ¬ T = 0 := by omega
+  simp only [hT0, if_false, hnb, reduceCtorEq, and_false]
+  rw [fixedLoop2_plain rule R C r (decide (nb = .vonNeumann)) hR1 hR hC (T - 1) 1 init Caches2.empty s hg]
 
 /-- An unknown neighbourhood type is rejected with `ValueError` as soon as a step is taken. -/
 theorem unknown_neighbourhood_rejected [DecidableEq α] [Inhabited α] (hist : List (Grid α)) (init : Grid α)
     (hlast : hist.getLast? = some init) (T : Nat) (rule : Rule2 σ α) (r : Nat) (mode : Mode) (s : σ) :
     (2 ≤ T → evolve2dFixed hist T rule r .unknown mode s = .error .ValueError) ∧
     evolve2dFixed hist 1 rule r .unknown mode s = .ok (hist, s) := by
-  sorry
+  constructor
+  · intro h2
+    unfold evolve2dFixed
+    rw [hlast]
+    have hT0 : ¬ T = 0 := by omega
+    simp [hT0, h2]
+  · unfold evolve2dFixed
+    rw [hlast]
+    simp [fixedLoop2]
 
 /-- **Call trace**: with a recorder around any rule, the calls of one step are exactly one per cell in
     row-major order, each with the torus neighbourhood of the previous grid, the cell `(row, col)` and `t`. -/
@@ -79,12 +109,13 @@ theorem step2_logged [Inhabited α] (rule : Rule2 σ α) (g : Grid α) (R C r : 
       = ((Spec.step2 rule g R C r vn t s).1,
          ((Spec.step2 rule g R C r vn t s).2,
           log ++ (cellsRowMajor R C).map fun c => (nbhd g R C r vn c.1 c.2, c, t))) := by
-  sorry
+  simp only [Spec.step2]
+  rw [cellVals_logged rule g R C r vn t]
 
 theorem cellsRowMajor_spec (R C : Nat) :
     (cellsRowMajor R C).length = R * C ∧
     ∀ i j, i < R → j < C → (cellsRowMajor R C)[i * C + j]? = some (i, j) := by
-  sorry
+  exact ⟨cellsRowMajor_length R C, cellsRowMajor_getElem? R C⟩
 
 /-! ## Guard witnesses and non-vacuity -/
 example : vonNeumannMask 0 = [[false]] := by decide
